@@ -133,7 +133,7 @@ def worker(payload):
     cases = 0
 
     def fail(clause, case, expected, got):
-        if len(failures) < 10:
+        if sum(1 for f_ in failures if f_['clause'] == clause) < 3 and len(failures) < 60:      # three records per clause
             failures.append({'clause': clause, 'case': dict(case, spec=spec['idx'], style=spec['style']),
                              'expected': expected, 'got': got})
 
@@ -519,7 +519,7 @@ def main():
              'alphabetically unrelated, random) with shuffled terms and alternatives x partial dictionaries {}, {first}, {last}, '
              '{first,last}; 12 duplicate-kind specifications x 2 entry points'
              % (n_specs, 5 if tier == 'quick' else 7))
-    print(json.dumps({'cases': cases, 'bound': bound, 'failures': failures[:10]}))
+    print(json.dumps({'cases': cases, 'bound': bound, 'failures': failures[:60]}))
     return 0 if not failures else 1
 
 
